@@ -36,7 +36,8 @@ import numpy as np
 from runner import Infra, TieBroken
 
 ID = "C07"
-LEAN_MODULES = ["PyYetiVerif.Props.C07", "PyYetiVerif.Audit.C07"]
+LEAN_MODULES = ["PyYetiVerif.Props.C07", "PyYetiVerif.Props.C07Decisions", "PyYetiVerif.Props.C07SSRoutine",
+                "PyYetiVerif.Props.C07Truncation", "PyYetiVerif.Audit.C07"]
 AUDIT_FILE = "PyYetiVerif/Audit/C07.lean"
 THEOREMS = [
     "PyYetiVerif.C07." + n
@@ -46,7 +47,15 @@ THEOREMS = [
         "epq1_eq_epq2 aug_pow1 aug_pow0 aug_exp_blocks aug_exp_blocks_order0 half_option_is_selection "
         "half_option integrals_termwise zoh_step foh_step foh_step_closed tustin_roundtrip "
         "tustin_roundtrip_rev tustin_is_bilinear foh_io_equiv zoha_io_equiv zoh_io_equiv zoh_roundtrip "
-        "zoha_roundtrip foh_roundtrip"
+        "zoha_roundtrip foh_roundtrip "
+        # driver logic (Props/C07Decisions.lean)
+        "driver_logic_pinned scaling_exponent_minimal scaling_exponent_is_ceil_log2 expmint_branch_decision "
+        "ss_branch_decision_same squaring_loop_invariant squaring_count geti2_branch_decision geti2_accept_spec "
+        "pow_truncation_rule epq_dispatch_spec half_option_spec ell_constants_are_pade_error "
+        # whole routines c2d / d2c (Props/C07SSRoutine.lean)
+        "d2c_result_is_continuous c2d_attributes c2d_d2c_roundtrip_all_methods "
+        # truncation error, scalar case (Props/C07Truncation.lean)
+        "pade_truncation_scalar_bound squaring_error_growth pade_truncation_matrix_partial"
     ).split()
 ]
 TRUSTED = [
@@ -57,6 +66,11 @@ TRUSTED = [
     "theorems are at the level of power-series coefficients / ring identities: Pade truncation error inside the "
     "theta_m thresholds, floating-point round-off, scipy's _ell / onenormest / LU / eig are measured, not proved",
     "the eig-based logarithm of d2c is an explicit hypothesis (log(exp X) = X) of the round-trip theorems",
+    "decisions: the norm quantities d4..d10 (scipy onenormest, an estimate for n > 2) and the outcome of LAPACK's LU "
+    "(zero pivot warning, I_test) are inputs of the decision model, measured on the implementation's own helper objects; "
+    "scipy's `_ell` constants c_i are stated in the model (proved to be the leading error coefficients of the regenerated "
+    "tables: ell_constants_are_pade_error) and `_ell` itself is compared exactly on every decision case; numpy's allclose "
+    "defaults rtol=1e-5, atol=1e-8 are assumed when the call gives none",
 ]
 RULE = (
     "matrices n = 1..6 from the families dense / stable-symmetric / singular / nilpotent / jordan / upper-triangular / "
@@ -64,7 +78,13 @@ RULE = (
     "log-uniform in [1e-6, 1e3] plus values straddling every branch threshold (nextafter-style scaling at the getEPQ "
     "switch); one case = one (A, h) with every API variant compared on it (expmint, expmint_pow, 4 getEPQ routines "
     "x order x B x half); ss: random stable systems x 4 methods x prewarp; non-trivial = A != 0 and the call "
-    "reaches a Pade/series branch; distinct by the exact bit patterns of (A, h) and the option tuple"
+    "reaches a Pade/series branch; distinct by the exact bit patterns of (A, h) and the option tuple; decisions (exact): "
+    "the same cases plus boundary inputs (norms at theta_m (1 +- 1e-12) and theta_13 2^k (1 +- 1e-12) as 1x1, diagonal, "
+    "rotation and 3x3 matrices; nilpotent; singular with ||A h|| up to 300; nearly singular diag(-1e-k, ...) for k = 3..15; "
+    "positive matrices that exhaust the 200 passes): Pade order, s0, s, number of squarings (bitwise replay of the loop), "
+    "_ell values, _geti2 branch / warning / RuntimeError / pass count, expmint_pow pass count, getEPQ route; a decision whose "
+    "inputs lie within 1e-13 (norms) / 1e-9 (tolerances, alpha of _ell) of a jump is skipped and counted; SSModel: random "
+    "sequences of 1..4 c2d/d2c calls from h in {None, 0, 0.125, 0.5}: identity of the returned object and its h, method, prewarp"
 )
 ASSUMPTIONS = [
     "numeric agreement |impl - model| <= 1e-9 * max|model entry| (the property's 'to round-off'), model error bound < 1e-25 * scale",
@@ -76,11 +96,17 @@ ASSUMPTIONS = [
     "d2c of zoh/zoha/foh: spectrum of A_z off the negative real axis, |Im(lambda) h| < pi, cond(eigenvectors) <= 1e6",
 ]
 PARTIAL = (
-    "complete at the series/ring level; not proved (measured by correspondence and oracle inside the conditioning "
-    "domain): truncation/backward error of the Pade approximants inside the theta_m thresholds (Higham's analysis), "
-    "floating-point round-off, scipy's _ell/onenormest/LU/eig; the I2 fallback for singular A with large ||A h|| "
-    "is the open finding F12, and the direct branch A^-1(E h - A^-1(E - 1)) of _geti2 for a nearly singular A is the "
-    "finding expmint-geti2-direct-near-singular (mechanism stated as theorem I2_direct_amplification)"
+    "complete at the series/ring level and for the driver logic (decisions); truncation error proved for the real scalar "
+    "case only (pade_truncation_scalar_bound: |r_m(x) - e^x| <= eps_m e^x for |x| <= theta_m with eps_m <= 2^-53/64, "
+    "0.3 2^-53, 1.6 2^-53, 6 2^-53, 2^-53/15 for m = 3, 5, 7, 9, 13, hence eigenvalue-wise for real symmetric A): the "
+    "general matrix statement (non-normal A, 1-norm; Higham's backward-error analysis with ||q_m(A)^-1||) is NOT proved "
+    "(pade_truncation_matrix_partial keeps it visible), nor are the truncation errors of the phi1 / phi2 approximants "
+    "(I1, I2 tables: order conditions only); not proved, measured by correspondence and oracle inside the conditioning "
+    "domain: floating-point round-off, scipy's onenormest / LU / eig (the decisions are proved and compared exactly GIVEN "
+    "the measured norm quantities and LU outcome); the I2 fallback for singular A with large ||A h|| is the open finding "
+    "F12 and the direct branch A^-1(E h - A^-1(E - 1)) of _geti2 for a nearly singular A is the open finding F37 "
+    "(mechanism: I2_direct_amplification; the exact repair, carrying I2 through the squaring loop, is proved exact in "
+    "squaring_loop_invariant and handed over as corpus/c07_geti2_doubling_candidate_fix.diff)"
 )
 MANIFEST = {
     "level_text": "Proof (Lean 4, kernel-checked, standard axioms only). On the Pade tables machine-translated from "
@@ -97,10 +123,25 @@ MANIFEST = {
     "sampled recurrences (induction over time), zoh/zoha/foh round trips given log(exp X) = X. The floating-point "
     "routines are tied to this by numeric correspondence against an exact-rational Lean reference with a rigorous error "
     "bound, over a norm sweep that is required to hit every Pade order, the scaling loop, all three I2 formulas and both "
-    "sides of the getEPQ switch.",
+    "sides of the getEPQ switch. DRIVER LOGIC (third phase), on constants and statement texts regenerated from the source: "
+    "the Pade order / scaling decision of expmint and _expm_SS stated outright (expmint_branch_decision), s0 is the least s "
+    "with eta_5 <= 4.25 2^s and equals max(ceil(log2(eta_5/4.25)), 0) over the reals (scaling_exponent_minimal / "
+    "_is_ceil_log2), s squarings bring the base step h 2^-s back to h with (E, I1) - and the candidate I2 recurrence - exact "
+    "at every stage (squaring_loop_invariant, formal power series), the _geti2 branch / warning / RuntimeError logic and "
+    "its allclose acceptance (geti2_branch_decision, geti2_accept_spec), the truncation rule of the power series "
+    "(pow_truncation_rule), the getEPQ switch and half/B handling on both routes (epq_dispatch_spec, half_option_spec), "
+    "scipy's _ell constants = leading error coefficients of the regenerated tables. SSModel.c2d / d2c as whole routines with "
+    "the h / method / prewarp attributes: round trip for all four methods on the exact domain h = None, d2c never returns a "
+    "sample time, c2d of a discrete model returns itself. TRUNCATION: for real x with |x| <= theta_m the regenerated "
+    "approximant satisfies |r_m(x) - e^x| <= eps_m e^x, eps_m <= (1/64, 0.3, 1.6, 6, 1/15) 2^-53 for m = 3, 5, 7, 9, 13 "
+    "(Taylor remainder from Mathlib + exact polynomial identity + sign structure q(x) = p(-x)). The decisions are tied by an "
+    "EXACT correspondence (Pade order, s, number of squarings by bitwise replay, _ell, _geti2 branch and pass count, "
+    "expmint_pow pass count, getEPQ route, SSModel attribute sequences) on generated and boundary inputs.",
     "level_note": "Trusted: Lean kernel; propext, Classical.choice, Quot.sound; the translator and the Python harness; "
     "scipy's pade7/pade9 tables as constants (checked against execution). Not proved, measured to 1e-9 inside the stated "
-    "conditioning domain: Pade truncation error within theta_m, round-off, _ell, LU, eig-based log. Two accuracy "
+    "conditioning domain: Pade truncation error for non-symmetric matrices (scalar real case proved) and of the I1 / I2 "
+    "approximants, round-off, onenormest, LU, eig-based log; the decision theorems take the measured norm quantities and the "
+    "LU outcome as inputs. Two accuracy "
     "findings about I2 outside that domain are reported by the oracle and excluded (skipped and counted) from the "
     "correspondence: F12 (singular A, large ||A h||, power-series fallback) and expmint-geti2-direct-near-singular "
     "(regular but nearly singular A h in the direct branch: error ~ eps ||(A h)^-1||^2).",
